@@ -26,6 +26,7 @@ from ..astutil import (text, access_path, calls_in, func_params, stmts_of, is_co
                        store_targets, fold, single_defs, canon_text)
 from ..loader import where, AnalysisError
 from ..paths import Enumerator
+from ..terms import Terms, PathEnv
 from .c04 import drop_outside_domain
 
 G_OPT = "options['max_population_number']"
@@ -132,16 +133,18 @@ def r1_tags(ctx, repo, cname, mname):
     if len(loop_tags) != 1:
         ctx.inconclusive("R1", C, where(mod, loop), "expected one tag assignment in the generation loop, found %d" % len(loop_tags), key="tags")
         return gl
-    aff = affine_in(loop_tags[0].value, var)
-    # express the tag as it + d
+    # express the tag as it + d (temporaries looked through)
     d = None
-    v = loop_tags[0].value
+    v = Terms(fn).expand(loop_tags[0].value, at=loop_tags[0])
     if isinstance(v, ast.Name) and v.id == var:
         d = 0
-    elif isinstance(v, ast.BinOp) and isinstance(v.op, (ast.Add, ast.Sub)) and isinstance(v.left, ast.Name) and v.left.id == var:
+    else:
+        from .. import poly
         try:
-            d = fold(v.right) * (1 if isinstance(v.op, ast.Add) else -1)
-        except ValueError:
+            dd = poly.norm(v) - poly.norm(ast.Name(id=var, ctx=ast.Load()))
+            if dd.is_const() and dd.const().denominator == 1:
+                d = int(dd.const())
+        except poly.NotPolynomial:
             d = None
     if d is None:
         ctx.inconclusive("R1", C, where(mod, loop_tags[0]), "tag %s is not <loop variable> + literal" % text(v), key="tags")
@@ -178,6 +181,10 @@ def plus1(c):
 
 def len_guard(atom, lst, nopt_text):
     """classify atom as a test on len(lst): returns set of classes for which it is True, or None"""
+    if access_path(atom) == lst:
+        return {"M", "P", "N", "O"}          # truthiness of the list itself: non-empty
+    if isinstance(atom, ast.Call) and access_path(atom.func) == "len" and atom.args and access_path(atom.args[0]) == lst:
+        return {"M", "P", "N", "O"}
     if isinstance(atom, ast.Compare) and len(atom.ops) == 1 and isinstance(atom.left, ast.Call) and access_path(atom.left.func) == "len" \
             and atom.left.args and access_path(atom.left.args[0]) == lst:
         r = atom.comparators[0]
@@ -470,7 +477,19 @@ def r6_acceptance(ctx, repo):
     domlist = domflag = None
     paths = drop_outside_domain(Enumerator(loop_counts=(0, 1)).function_paths(body_fn(lp.body, fn.args, lp.lineno)), flag, (0, 1, 2))
     scan_ok = True
-    idxvar = lp.target.id if isinstance(lp.target, ast.Name) else None
+    TT = Terms(fn)
+    info = TT.loop_of(lp)
+    idxvar = info.index if (info is not None and not info.synthetic) else None
+    if idxvar is None:
+        ctx.inconclusive("R6", C, where(mod, lp), "the scan has no member index (%s)" % text(lp.iter), key="scan")
+        return
+    other = cs[0].value.args[1] if new_wins == 1 else cs[0].value.args[0]
+    ox = text(TT.expand(other, at=cs[0], elems=True))
+    if ox != "%s[%s].costs_signed" % (pop, idxvar):
+        ctx.check3(False if ox.endswith(".costs_signed") and ox.startswith(pop + "[") else None, "R6", C, where(mod, cs[0]), "",
+                   "the offspring is compared with %s, not with the member at the scanned index %s" % (ox, idxvar),
+                   "compared member %s not recognised" % ox, key="scan")
+        return
     for p in paths:
         verdict = None
         for e in p.events:
@@ -493,8 +512,11 @@ def r6_acceptance(ctx, repo):
         else:
             if apps or sets:
                 scan_ok = False
-    if not scan_ok or domlist is None or domflag is None:
+    if not scan_ok:
         ctx.violated("R6", C, where(mod, lp), "the scan does not collect exactly the indices of the members the offspring dominates and whether some member dominates it", key="scan")
+        return
+    if domlist is None or domflag is None:
+        ctx.inconclusive("R6", C, where(mod, lp), "the locals that collect the dominated indices / the dominated flag are not recognised", key="scan")
         return
     ctx.holds("R6", C, where(mod, lp), "scan: verdict %d -> index appended to %s; verdict %d -> %s = True" % (new_wins, domlist, old_wins, domflag), key="scan")
     tail = fn.body[fn.body.index(lp) + 1:]
